@@ -227,21 +227,96 @@ def rule_zone_codes(chk):
     ok = ok and dl.get('delx') == 'd_x[d_idx]-self.x' and dl.get('dely') == 'd_y[d_idx]-self.y' and dl.get('delz') == 'd_z[d_idx]-self.z'
     chk.decide(ok, 'zone-codes', 'signed-distance', node=loop, file=IOM, func='IOEvaluate.loop',
                detail_bad='the signed distance is not (x - x0).n with each coordinate paired with its own normal component', detail_ok='disp = (x-x0)*xn + (y-y0)*yn + (z-z0)*zn')
-    top = [i for i in loop.body if isinstance(i, ast.If)]
-    codes = {}
-    if top:
-        i = top[0]
-        t1 = compact(i.test)
-        codes[1] = t1
-        b1 = compact(i.body[0]) if i.body else ''
-        el = i.orelse[0] if i.orelse and isinstance(i.orelse[0], ast.If) else None
-        ok = b1 == 'd_ioid[d_idx]=1' and t1 in ('d_disp[d_idx]>1e-06andd_disp[d_idx]-self.maxdist<1e-06',)
-        ok = ok and el is not None and same(el.test, 'd_disp[d_idx]-self.maxdist>1e-06') and same_stmt(el.body[0], 'd_ioid[d_idx]=2') and \
-            len(el.orelse) == 1 and same_stmt(el.orelse[0], 'd_ioid[d_idx]=0')
-    else:
-        ok = False
-    chk.decide(ok, 'zone-codes', 'assignment', node=loop, file=IOM, func='IOEvaluate.loop',
-               detail_bad='zone ids are not 1 for 0 < disp <= maxdist, 2 for disp > maxdist and 0 otherwise', detail_ok='1 inside, 2 beyond maxdist, 0 on the fluid side')
+    # the zone code as a function of the signed distance: the if-tree is evaluated exactly (rationals) on the common refinement of its own thresholds and the
+    # expected ones, for two generic zone lengths.  Expected: 0 behind the interface, 1 inside (0, maxdist), 2 beyond maxdist - up to a tolerance band of 1e-5
+    # around the two thresholds, inside which the code may be either neighbour's (today: strict tests against +-1e-6)
+    from fractions import Fraction as Fr
+    defs = local_defs(loop.body)
+
+    class Sub(ast.NodeTransformer):
+        def visit_Subscript(self, n):
+            if compact(n) == 'd_disp[d_idx]':
+                return ast.Name(id='X', ctx=ast.Load())
+            return self.generic_visit(n)
+
+        def visit_Attribute(self, n):
+            if compact(n) == 'self.maxdist':
+                return ast.Name(id='D', ctx=ast.Load())
+            return self.generic_visit(n)
+
+        def visit_Constant(self, n):
+            if isinstance(n.value, float):
+                return ast.Call(func=ast.Name(id='Fr', ctx=ast.Load()), args=[ast.Constant(value=repr(n.value))], keywords=[])
+            return n
+
+    def tr(e):
+        e2 = Sub().visit(inline(e, dict((k, v) for k, v in defs.items() if k not in ('delx', 'dely', 'delz'))))
+        return compile(ast.fix_missing_locations(ast.Expression(body=e2)), '<zone>', 'eval')
+
+    class Undecidable(Exception):
+        pass
+
+    def run(stmts, env):
+        code = None
+        for st in stmts:
+            if isinstance(st, ast.If):
+                try:
+                    tv = bool(eval(tr(st.test), {'__builtins__': {}, 'Fr': Fr, 'abs': abs}, env))
+                except Exception as ex:
+                    raise Undecidable('test `%s`: %s' % (U(st.test), ex))
+                r = run(st.body if tv else st.orelse, env)
+                code = r if r is not None else code
+            elif isinstance(st, ast.Assign) and compact(st.targets[0]) == 'd_ioid[d_idx]':
+                if not (isinstance(st.value, ast.Constant) and isinstance(st.value.value, int)):
+                    raise Undecidable('zone id `%s`' % U(st.value))
+                code = st.value.value
+            elif any(isinstance(x, (ast.Subscript,)) and compact(x) == 'd_ioid[d_idx]' and isinstance(x.ctx, ast.Store) for x in ast.walk(st)):
+                raise Undecidable('store `%s`' % U(st))
+        return code
+    tail = loop.body[loop.body.index(disp[0]) + 1:] if disp and disp[0] in loop.body else loop.body
+    why = ''
+    ok = True
+    try:
+        for D in (Fr(3), Fr(1, 7)):
+            tol = Fr(1, 10 ** 5)
+            # thresholds of the tree: every comparison, as a function of X, is affine; its root is a break point
+            brk = set([-tol, tol, D - tol, D + tol])
+            for c_ in [c_ for st in tail for c_ in ast.walk(st) if isinstance(c_, ast.Compare) and len(c_.ops) == 1]:
+                g = tr(ast.BinOp(left=c_.left, op=ast.Sub(), right=c_.comparators[0]))
+                try:
+                    g0, g1, g2 = [eval(g, {'__builtins__': {}, 'Fr': Fr, 'abs': abs}, {'X': Fr(v), 'D': D}) for v in (0, 1, 2)]
+                except Exception as ex:
+                    raise Undecidable('comparison `%s`: %s' % (U(c_), ex))
+                if g2 - g1 != g1 - g0:
+                    raise Undecidable('comparison `%s` is not affine in the distance' % U(c_))
+                if g1 != g0:
+                    brk.add(-g0 / (g1 - g0))
+            pts = sorted(brk)
+            samples = [pts[0] - 1] + [x_ for i_ in range(len(pts)) for x_ in ([pts[i_]] + ([(pts[i_] + pts[i_ + 1]) / 2] if i_ + 1 < len(pts) else []))] + [pts[-1] + 1]
+            for x_ in samples:
+                got = run(tail, {'X': x_, 'D': D})
+                if x_ < -tol:
+                    want = (0,)
+                elif x_ <= tol:
+                    want = (0, 1)
+                elif x_ < D - tol:
+                    want = (1,)
+                elif x_ <= D + tol:
+                    want = (1, 2, 0)        # today the point disp - maxdist == 1e-6 itself gets 0
+                else:
+                    want = (2,)
+                if got not in want:
+                    ok = False
+                    why = 'a particle at signed distance %s (zone length %s) gets zone id %s, expected %s' % (float(x_), float(D), got, ' or '.join(str(w_) for w_ in want))
+                    break
+            if not ok:
+                break
+    except Undecidable as ex:
+        chk.undecided('zone-codes', 'assignment', node=loop, file=IOM, func='IOEvaluate.loop', detail='zone function not evaluable: %s' % ex)
+        ok = None
+    if ok is not None:
+        chk.decide(ok, 'zone-codes', 'assignment', node=loop, file=IOM, func='IOEvaluate.loop',
+               detail_bad='zone ids are not 1 for 0 < disp <= maxdist, 2 for disp > maxdist and 0 otherwise: ' + why, detail_ok='1 inside, 2 beyond maxdist, 0 on the fluid side (exact evaluation on the refinement of all thresholds)')
     # how the two base classes evaluate the zone / the fluid
     for cname, zone in (('InletBase', 'i_name'), ('OutletBase', 'o_name')):
         c = M.find_class(t, cname)
